@@ -104,19 +104,27 @@ class C18(AstKindProp):
         for w in sweep_widths:
             weff = w or 100
             for kind in ("class", "rest", "function"):
+              # variant 0: prose on one line, the sentence written by the emitter; 1: the prose ALREADY ends with its
+              # default sentence (what parse.docstring hands on); 2 / 3: the same with prose one line longer, so that the
+              # sentence is broken on a continuation line
+              for variant in (0, 1, 2, 3):
                 for off in range(0, 26):
-                    r = run.sub_rng("sweep", w, kind, off)
+                    r = run.sub_rng("sweep", w, kind, off, variant)
                     names = r.sample(G.NAMES, 2)
                     params = []
                     for nm in names:
                         typ = r.choice(["int", "str", "float", "bool"])
-                        dv = {"int": 5, "str": "mnist", "float": 0.5, "bool": True}[typ]
-                        params.append((nm, {"typ": typ, "doc": exact_prose(r, max(3, weff - len(nm) - 4 - off)), "default": dv}))
+                        dv = {"int": r.choice([5, 1024]), "str": "mnist", "float": 0.5, "bool": True}[typ]
+                        n = max(3, weff - len(nm) - 4 - off) + (weff - 8 if variant >= 2 else 0)
+                        doc = exact_prose(r, n)
+                        if variant % 2 == 1:
+                            doc = doc.rstrip(".") + ". Defaults to %s" % ('"%s"' % dv if typ == "str" else dv)
+                        params.append((nm, {"typ": typ, "doc": doc, "default": dv}))
                     irj = {"doc": "Summary line.", "params": params, "returns": None}
                     opts = {"emit_default_doc": True}
                     if kind == "function":
                         opts.update({"inline_types": True, "indent_level": r.choice([0, 1, 2])})
-                    self.cases.append({"width": w, "kind": kind, "ir": irutil.ir_to_json(irj), "opts": opts, "sweep": off})
+                    self.cases.append({"width": w, "kind": kind, "ir": irutil.ir_to_json(irj), "opts": opts, "sweep": off + 1000 * variant})
         # ... and the argparse route with prose that already carries its default sentence (what parse.docstring hands on):
         # the sentence is taken out of the help text, wherever the line would have been broken
         for w in sweep_widths:
